@@ -664,16 +664,19 @@ def flag_edges(P, fn, base_edges, rounds=2):
             if len(defs) < 2:
                 continue
             consts = []
-            okc = True
+            nonconst = []
             for (db, di, kind, payload) in defs:
                 if kind == "assign" and payload["k"] == "use" and payload["a"]["k"] == "const" and payload["a"].get("val") in (0, 1, True, False):
                     consts.append((db, bool(payload["a"]["val"])))
+                elif kind in ("assign", "call"):
+                    nonconst.append(db)      # a computed value: may be true or false
                 else:
-                    okc = False
-            if not okc:
+                    consts = None
+                    break
+            if not consts:
                 continue
             for val in (True, False):
-                blocks = [db for (db, v) in consts if v is val]
+                blocks = [db for (db, v) in consts if v is val] + nonconst
                 if blocks and all(must_pass_edges(fn, db, edges) for db in blocks):
                     for (v, tgt) in [(bool(v_), tg) for v_, tg in t["branches"]] + [(None, t["otherwise"])]:
                         vv = v if v is not None else (not bool(t["branches"][0][0]) if len(t["branches"]) == 1 else None)
@@ -692,3 +695,32 @@ def guarded(P, fn, site_bb, base_edges):
     if must_pass_edges(fn, site_bb, base_edges):
         return True
     return must_pass_edges(fn, site_bb, flag_edges(P, fn, base_edges))
+
+
+ITER_UNWRAP = ("::next", "::into_iter", "::iter", "::iter_mut", "::keys", "::values", "::values_mut", "::by_ref", "::drain", "::enumerate",
+               "::peekable", "::cloned", "::copied")
+
+
+def iter_base(e):
+    """the collection expression an iterator step (`next(..)`) ranges over: unwrap next/into_iter/iter/keys/..."""
+    out = set()
+    st = [e]
+    seen = set()
+    while st:
+        x = st.pop()
+        if x in seen:
+            continue
+        seen.add(x)
+        if x[0] in ("ref", "deref", "coerce"):
+            st.append(x[1])
+        elif x[0] == "phi":
+            st.extend(x[1])
+        elif x[0] == "call" and any(strip_generics(x[1]).endswith(s) for s in ITER_UNWRAP) and x[2]:
+            st.append(x[2][0])
+        else:
+            out.add(x)
+    return out
+
+
+def is_field_expr(x, field, owner=None):
+    return x[0] == "field" and x[2] == field and (owner is None or (x[3] or "").endswith(owner))
